@@ -160,6 +160,67 @@ class Trial:
             self.samples.append({'geom': self.geomstr(), 'damage': desc[:6], 'fix_rc': r.rc, 'check_rc': r2.rc})
         return not bad
 
+    def second_fix(self, tseed):
+        """coverage round: a file lost together with ALL the parity is unrecoverable: fix recreates it, cannot fill it and renames it
+        to <name>.unrecoverable; once the parity is back a second fix must take the .unrecoverable file back under its name
+        (handle_create) and restore everything"""
+        a, chk = self.arr, self.chk
+        restore(a, self.sv)
+        rng = random.Random(tseed)
+        files = [(d, f) for d, dd in sorted(self.st['disks'].items()) for f in dd['files'] if f['size'] > a.bs]
+        if not files:
+            return True
+        d, f = rng.choice(files)
+        rel = sub2rel(f['sub'])
+        p = a.path(d, rel)
+        if not os.path.isfile(p) or os.stat(p).st_nlink > 1:
+            return True
+        os.unlink(p)
+        for l in range(a.np):
+            for pf in a.parity_files[l]:
+                if os.path.exists(pf):
+                    os.unlink(pf)
+        self.ntrials += 1
+        r1 = a.run('fix')
+        desc = ['rm %s:%s and every parity file; fix (exit %d); parity files restored; fix' % (d, rel, r1.rc)]
+        replay = {'kind': 'second_fix', 'geom': self.geom, 'seed': self.seed, 'trial_seed': tseed, 'recipe': self.recipe, 'damage': desc}
+        bad = []
+        if r1.rc == 0 or not os.path.exists(p + '.unrecoverable'):
+            bad.append('the first fix (file and all parity lost) exits %d and %s.unrecoverable %s' % (r1.rc, rel, 'exists' if os.path.exists(p + '.unrecoverable') else 'does not exist'))
+        restore(a, self.sv, what=('parity',))
+        r = a.run('fix')
+        tags = interesting(r.tags)
+        if r.rc != 0:
+            bad.append('the second fix exits %d (%s)' % (r.rc, (r.err.strip().splitlines() or [''])[-1][:120]))
+        bad += compare_with_saved(a, self.sv, self.st)[:3]
+        r2 = a.run('check')
+        t2 = [t for t in interesting(r2.tags) if not t.startswith('summary:')]
+        if r2.rc != 0 or t2:
+            bad.append('check after the second fix exits %d and reports %s' % (r2.rc, t2[:2]))
+        for b in bad[:2]:
+            chk.violation('second_fix', '%s, %s: %s' % (self.geomstr(), desc[0], b), dict(replay, fix_rc=r.rc, fix_tags=tags[:40], problems=bad))
+        return not bad
+
+    def objects_trial(self, tseed):
+        """coverage round: the entries checked after the stripes, damaged on EVERY data disk at once (they need no parity): empty
+        files filled, hard link names turned into independent copies, plus removed links and dirs"""
+        a = self.arr
+        restore(a, self.sv)
+        rng = random.Random(tseed)
+        desc = []
+        self.grown = []
+        for d in a.disks:
+            done = damage_data_disk(a, d, 'objects', rng) + damage_data_disk(a, d, 'rmlinks', rng)
+            if done:
+                desc.append('%s[objects]: ' % d + ', '.join(done)[:200])
+        replay = {'kind': 'objects', 'geom': self.geom, 'seed': self.seed, 'trial_seed': tseed, 'recipe': self.recipe, 'damage': desc}
+        # check (no fix) must notice every such damage: non-zero exit and one error line per damaged entry kind
+        r0 = a.run('check')
+        t0 = [t for t in interesting(r0.tags) if t.startswith(('error:', 'hardlink_error:', 'symlink_error:', 'dir_error:'))]
+        if desc and (r0.rc == 0 or not t0):
+            self.chk.violation('objects_check', '%s, damaged entries (%s): check exits %d and reports %s' % (self.geomstr(), '; '.join(desc)[:300], r0.rc, t0[:2]), dict(replay, check_tags=t0[:20]))
+        return self.judge('objects', desc or ['no damage'], replay)
+
     def apply_devices(self, subset, rng):
         a = self.arr
         desc = []
@@ -272,6 +333,8 @@ def swap_trials(chk, binary, rng, n):
             size = rng.choice([1024, 2048, 3000, 1500])
             sec = 1700000000 + rng.randrange(100000)
             ns1, ns2 = rng.sample([1, 123456789, 500000000, 987654321, 999999999], 2)
+            if done % 3 == 2:
+                ns2 = ns1      # identical time-stamps: the inode of each restored file belongs to its twin -> `collision:`, time not set
             a.write(d, 'sw1', rng.randbytes(size), mtime_ns=sec * 10**9 + ns1)
             a.write(d, 'sw2', rng.randbytes(size), mtime_ns=sec * 10**9 + ns2)
             for od in a.disks:
@@ -286,6 +349,8 @@ def swap_trials(chk, binary, rng, n):
             errs = compare_with_saved(a, sv, st)
             r2 = a.run('check')
             bad = (['fix exits %d' % r.rc] if r.rc else []) + errs[:2] + (['check after fix exits %d' % r2.rc] if r2.rc else [])
+            if ns1 == ns2 and not any(t.startswith('collision:') for t in r.tags):
+                bad.append('the two files have the same size and time-stamp and exchanged their inodes, but fix reports no `collision:`')
             done += 1
             for b in bad[:1]:
                 chk.violation('swap', 'nd=%d np=%d: %s:sw1 and %s:sw2 (%d bytes, same second, nanoseconds %d / %d) exchanged their names; after fix: %s' % (nd, np_, d, d, size, ns1, ns2, b),
@@ -418,6 +483,10 @@ def main(tier, replay=None):
                 if len(chk.violations) > 8:
                     break
                 T.one_pattern(T.rng.getrandbits(32))
+            if T.kind is None:
+                for _ in range(1 if tier == 'quick' else 4):
+                    T.second_fix(T.rng.getrandbits(32))
+                    T.objects_trial(T.rng.getrandbits(32))
         T.close()
         return T
     with cf.ThreadPoolExecutor(max_workers=min(8, NCPU)) as ex:
